@@ -92,8 +92,13 @@ func VerifC17_EnvelopeClear(mode int) {
 
 // specWrap / specUnwrap: RFC 3394 section 2.2 (index-based description), over the spec-side AES primitive.
 func specWrap(kek, p []byte) []byte {
+	return specWrapIV(kek, p, []byte{0xA6, 0xA6, 0xA6, 0xA6, 0xA6, 0xA6, 0xA6, 0xA6})
+}
+
+// specWrapIV: the same wrapping with an arbitrary initial value (RFC 3394 2.2.3: the IV is what the unwrapper checks).
+func specWrapIV(kek, p, iv []byte) []byte {
 	n := len(p) / 8
-	a := []byte{0xA6, 0xA6, 0xA6, 0xA6, 0xA6, 0xA6, 0xA6, 0xA6}
+	a := verifCopy(iv)
 	r := make([][]byte, n)
 	for i := range r {
 		r[i] = verifCopy(p[8*i : 8*i+8])
@@ -158,6 +163,30 @@ func VerifC17_UnwrapIff(kekLen int) {
 	verifAssert((err == nil) == ok, "unwrapping succeeds exactly when the recovered integrity value is A6A6A6A6A6A6A6A6")
 	if err == nil {
 		verifAssert(verifBytesEq(key[:], want), "the unwrapped key is the RFC 3394 plaintext")
+	}
+	verifReach("done")
+}
+
+// The integrity check, stated relative to the primitive: the envelope is the RFC 3394 wrapping of an arbitrary key
+// under an initial value A6..A6 xor d (d: 8 symbolic bytes). Unwrap must succeed exactly for d = 0 and then return the
+// key. Unlike UnwrapIff (free ciphertext bytes) a counterexample - an unwrapper that overlooks some difference d - keeps
+// its meaning in the native replay, where AES is the real function (round 6, lesson 6 of section 12).
+func VerifC17_UnwrapIffRel(kekLen int) {
+	kek := verifNondetBytes("kek", kekLen)
+	key := verifNondetBytes("key", 16)
+	d := verifNondetBytes("ivDifference", 8)
+	iv := make([]byte, 8)
+	same := true
+	for k := range iv {
+		iv[k] = 0xA6 ^ d[k]
+		same = verifAnd(same, d[k] == 0)
+	}
+	c := specWrapIV(kek, key, iv)
+	env := KeyEnvelope{KEKLabel: "label", AESKey: HEXBytes(verifCopy(c))}
+	got, err := env.Unwrap(kek)
+	verifAssert((err == nil) == same, "an envelope wrapped under the initial value A6..A6 xor d unwraps exactly when d = 0")
+	if err == nil {
+		verifAssert(verifBytesEq(got[:], key), "the unwrapped key is the wrapped key")
 	}
 	verifReach("done")
 }
